@@ -93,6 +93,9 @@ static void run_generated(Rng &r)
         }
         x.has_value = r.chance(0.6);
         if(x.has_value) { int vl = r.chance(0.25) ? 0 : (int)r.range(1, 5); for(int k = 0; k < vl; ++k) x.value += AL[r.below(7)]; }
+        // documentation-sized values and long keys: the same alphabet, other orders of magnitude
+        if(x.has_value && r.chance(0.02)) { int vl = (int)r.range(200, 3000); x.value.clear(); for(int k = 0; k < vl; ++k) x.value += AL[r.below(7)]; count("blocks.long_value"); }
+        if(r.chance(0.01)) { int kl = (int)r.range(250, 700); x.key = "a"; for(int k = 1; k < kl; ++k) x.key += AL[r.below(7)]; count("blocks.long_key"); }
         e.push_back(x);
     }
     std::string b;
@@ -105,7 +108,7 @@ static void run_generated(Rng &r)
     for(auto &t : tags) count("blocks." + t);
     describe_case(render(e), tags);
     distinct(hash_str(b));
-    sample(jstr(render(e)));
+    sample(jstr(render(e).substr(0, 300)));
     check_block(e, b.data(), b.size(), "generated", tags);
 }
 
